@@ -11,6 +11,8 @@ import (
 	"sync/atomic"
 	"time"
 
+	"google.golang.org/protobuf/proto"
+
 	"github.com/smart-core-os/sc-golang/pkg/resource"
 	"github.com/smart-core-os/sc-golang/pkg/time/clock"
 	"github.com/smart-core-os/sc-golang/pkg/trait/electricpb"
@@ -26,6 +28,19 @@ type gateClock struct {
 	armed   atomic.Bool
 	entered chan struct{}
 	release chan struct{}
+	// parkArmed: the parking spot is not the clock but the caller's WithExpectedCheck callback of a DeleteMode
+	// (Collection.Delete calls it after deleteMode's "is it the active mode" guard and before the removal,
+	// holding no lock of its own: the delete is parked between its guard and its write, inside Model.mu)
+	parkArmed atomic.Bool
+}
+
+// parkCheck is that callback: it parks its first caller until release is closed and never refuses.
+func (c *gateClock) parkCheck(proto.Message) error {
+	if c.parkArmed.CompareAndSwap(true, false) {
+		close(c.entered)
+		<-c.release
+	}
+	return nil
 }
 
 func (c *gateClock) Now() time.Time {
@@ -128,10 +143,16 @@ func runOverlap(ov overlap) overlapObs {
 		}
 	}
 	defer releaseOnce()
-	gc.armed.Store(true)
+	gw := w
+	if (ov.Gate.Kind == "delete" || ov.Gate.Kind == "update") && ov.Gate.Check == "pk" {
+		gc.parkArmed.Store(true)
+		gw = &world{model: w.model, server: w.server, clk: w.clk, rng: w.rng, park: gc.parkCheck}
+	} else {
+		gc.armed.Store(true)
+	}
 	gateDone := make(chan string, 1)
 	go func() {
-		out, _, _ := w.exec(ov.Gate)
+		out, _, _ := gw.exec(ov.Gate)
 		gateDone <- out
 	}()
 	parked := false
@@ -141,9 +162,11 @@ func runOverlap(ov overlap) overlapObs {
 	case out := <-gateDone:
 		// the gate operation never read the clock (e.g. it failed): nothing is parked
 		gc.armed.Store(false)
+		gc.parkArmed.Store(false)
 		gateDone <- out
 	case <-time.After(2 * time.Second):
 		gc.armed.Store(false)
+		gc.parkArmed.Store(false)
 	}
 	outs := make([]string, len(ov.Queued))
 	var finished atomic.Int32
@@ -294,6 +317,12 @@ func genOverlap(r *rand.Rand) overlap {
 	if r.Intn(4) == 0 {
 		return genStampOverlap(r)
 	}
+	switch r.Intn(8) {
+	case 0, 1:
+		return genParkedDelete(r)
+	case 2:
+		return genParkedUpdate(r)
+	}
 	ov := overlap{Now: int64(500 + r.Intn(100))}
 	ids := []string{"a", "b", "c", "x"}
 	// setup: a few stored modes, at most one normal, and a first active mode
@@ -367,6 +396,104 @@ func genOverlap(r *rand.Rand) overlap {
 		for i := 0; i < n; i++ {
 			o := genContended(r)
 			ov.Queued = append(ov.Queued, o)
+		}
+	}
+	for i := range ov.Queued {
+		ov.Queued[i].Now = ov.Now
+	}
+	ov.Gate.Now = ov.Now
+	for i := range ov.Prefix {
+		ov.Prefix[i].Now = ov.Now
+	}
+	return ov
+}
+
+// genParkedDelete draws a round whose parked call is a DeleteMode: it has passed deleteMode's guard (the victim is
+// not the active mode) and is held in the caller's WithExpectedCheck callback, before the removal. 1-3 calls that
+// make the victim the active mode (ChangeActiveMode, UpdateActiveMode, SetActiveMode, and ChangeToNormalMode /
+// ClearActiveMode when the victim is the normal mode), or rewrite / re-add / delete it, are issued meanwhile. In
+// every serial order a switch to the victim either comes first (then the delete is refused) or finds no mode.
+func genParkedDelete(r *rand.Rand) overlap {
+	ov := overlap{Class: "delete-parked-vs-switch", Now: int64(500 + r.Intn(100))}
+	ids := []string{"a", "b", "c", "x"}
+	victim := ids[1+r.Intn(3)]
+	victimNormal := r.Intn(2) == 0
+	for _, id := range ids {
+		ov.Prefix = append(ov.Prefix, op{Kind: "add", Mode: &mode{ID: id, Title: "t" + id, Normal: id == victim && victimNormal}})
+	}
+	if r.Intn(3) != 0 {
+		ov.Prefix = append(ov.Prefix, op{Kind: []string{"change", "s.change"}[r.Intn(2)], ID: "a"})
+	}
+	ov.Gate = op{Kind: "delete", ID: victim, AllowMissing: r.Intn(2) == 0, Check: "pk"}
+	if r.Intn(3) == 0 {
+		ov.Gate.Expected = &mode{ID: victim, Title: "t" + victim, Normal: victimNormal}
+	}
+	n := 1 + r.Intn(3)
+	for i := 0; i < n; i++ {
+		switch r.Intn(9) {
+		case 0, 1:
+			ov.Queued = append(ov.Queued, op{Kind: "change", ID: victim})
+		case 2:
+			ov.Queued = append(ov.Queued, op{Kind: "s.change", ID: victim})
+		case 3:
+			ov.Queued = append(ov.Queued, op{Kind: "setactive", Mode: &mode{ID: victim, Title: "set"}})
+		case 4, 5:
+			ov.Queued = append(ov.Queued, op{Kind: []string{"clear", "s.clear"}[r.Intn(2)]})
+		case 6:
+			ov.Queued = append(ov.Queued, op{Kind: "s.update", Mode: &mode{ID: victim, Title: "u"}, HasMask: true, Mask: []string{"title"}})
+		case 7:
+			ov.Queued = append(ov.Queued, op{Kind: "s.delete", ID: victim, AllowMissing: r.Intn(2) == 0})
+		default:
+			ov.Queued = append(ov.Queued, op{Kind: "update", Mode: &mode{ID: victim, Title: "up"}, CreateIfAbsent: true})
+		}
+	}
+	for i := range ov.Queued {
+		ov.Queued[i].Now = ov.Now
+	}
+	ov.Gate.Now = ov.Now
+	for i := range ov.Prefix {
+		ov.Prefix[i].Now = ov.Now
+	}
+	return ov
+}
+
+// genParkedUpdate is the I1 analogue: an UpdateMode (or an upsert) that makes a mode normal has passed updateMode's
+// "no other normal mode" guard and is held in the caller's WithExpectedCheck callback, before the write; 1-3 calls
+// that would make ANOTHER mode normal (AddMode, the CreateMode RPC, UpdateMode at both levels, an upsert), delete
+// the target, or clear to the normal mode are issued meanwhile. The parked call did pass its guard, so in every
+// serial order it comes before any of the others that succeeds in making a mode normal.
+func genParkedUpdate(r *rand.Rand) overlap {
+	ov := overlap{Class: "update-parked-vs-normal-race", Now: int64(500 + r.Intn(100))}
+	for _, id := range []string{"a", "b", "c"} {
+		ov.Prefix = append(ov.Prefix, op{Kind: "add", Mode: &mode{ID: id, Title: "t" + id}})
+	}
+	if r.Intn(2) == 0 {
+		ov.Prefix = append(ov.Prefix, op{Kind: "change", ID: "a"})
+	}
+	target := []string{"b", "c", "u"}[r.Intn(3)] // "u" is not stored: an upsert
+	ov.Gate = op{Kind: "update", Mode: &mode{ID: target, Title: "gate", Normal: true}, CreateIfAbsent: target == "u", Check: "pk"}
+	if r.Intn(2) == 0 {
+		ov.Gate.HasMask, ov.Gate.Mask = true, []string{"normal"}
+	}
+	n := 1 + r.Intn(3)
+	for i := 0; i < n; i++ {
+		switch r.Intn(8) {
+		case 0:
+			ov.Queued = append(ov.Queued, op{Kind: "add", Mode: &mode{ID: fmt.Sprint("n", i), Normal: true}})
+		case 1:
+			ov.Queued = append(ov.Queued, op{Kind: "s.create", Mode: &mode{Title: fmt.Sprint("c", i), Normal: true}})
+		case 2:
+			ov.Queued = append(ov.Queued, op{Kind: "update", Mode: &mode{ID: "a", Title: "u", Normal: true}})
+		case 3:
+			ov.Queued = append(ov.Queued, op{Kind: "s.update", Mode: &mode{ID: "c", Normal: true}, HasMask: true, Mask: []string{"normal"}})
+		case 4:
+			ov.Queued = append(ov.Queued, op{Kind: "update", Mode: &mode{ID: fmt.Sprint("v", i%2), Normal: true}, CreateIfAbsent: true})
+		case 5:
+			ov.Queued = append(ov.Queued, op{Kind: []string{"delete", "s.delete"}[r.Intn(2)], ID: target, AllowMissing: r.Intn(2) == 0})
+		case 6:
+			ov.Queued = append(ov.Queued, op{Kind: []string{"clear", "s.clear"}[r.Intn(2)]})
+		default:
+			ov.Queued = append(ov.Queued, op{Kind: "s.update", Mode: &mode{ID: target, Title: "w", Normal: false}})
 		}
 	}
 	for i := range ov.Queued {
